@@ -6,6 +6,7 @@ package fx
 import (
 	"bytes"
 	"errors"
+	"fmt"
 	"io"
 	"net"
 	"os"
@@ -44,6 +45,46 @@ type Fault struct {
 	// blocks).
 	Cancel   string `json:"cancel,omitempty"`
 	CancelAt int    `json:"cancel_at,omitempty"`
+	// Class: what the failing operations of a cut / transient fault return: "" (a plain
+	// error), "eof", "ueof" (io.ErrUnexpectedEOF), "timeout" (os.ErrDeadlineExceeded, a
+	// net.Error with Timeout() true, as under a deadline the caller set on the connection),
+	// "temporary" (a net.Error with Temporary() true), "wrapped" (fmt.Errorf %w of the
+	// timeout), "operror" (*net.OpError around the timeout). The context stays alive.
+	Class string `json:"class,omitempty"`
+	// Ctx: the shape of the context: "" (WithCancel), "timeout-parent" (WithTimeout(1h) of a
+	// parent that is cancelled), "timeout-own" (WithTimeout(1h), cancelled through its own
+	// cancel function), "expired" (WithDeadline in the past: done before the call),
+	// "timeout-short" (WithTimeout(short) that expires by itself while the call is blocked).
+	Ctx string `json:"ctx,omitempty"`
+}
+
+type temporaryErr struct{}
+
+func (temporaryErr) Error() string   { return "verif: injected temporary network error" }
+func (temporaryErr) Timeout() bool   { return false }
+func (temporaryErr) Temporary() bool { return true }
+
+// injected is the error a failing operation returns under the plan.
+func (p *Pipe) injected(write bool) error {
+	switch p.fault.Class {
+	case "eof":
+		return io.EOF
+	case "ueof":
+		return io.ErrUnexpectedEOF
+	case "timeout":
+		return os.ErrDeadlineExceeded
+	case "temporary":
+		return temporaryErr{}
+	case "wrapped":
+		return fmt.Errorf("verif: injected: %w", os.ErrDeadlineExceeded)
+	case "operror":
+		op := "read"
+		if write {
+			op = "write"
+		}
+		return &net.OpError{Op: op, Net: "fxpipe", Err: os.ErrDeadlineExceeded}
+	}
+	return ErrInjected
 }
 
 // Op is one operation the library performed on the connection (raw level).
@@ -306,7 +347,7 @@ func (c LibConn) Read(b []byte) (int, error) {
 	p := c.P
 	idx, fail := p.enter(false, nil)
 	if fail {
-		return 0, ErrInjected
+		return 0, p.injected(false)
 	}
 	p.mu.Lock()
 	defer p.mu.Unlock()
@@ -363,7 +404,7 @@ func (c LibConn) Write(b []byte) (int, error) {
 	p := c.P
 	idx, fail := p.enter(true, b)
 	if fail {
-		return 0, ErrInjected
+		return 0, p.injected(true)
 	}
 	p.mu.Lock()
 	defer p.mu.Unlock()
